@@ -34,7 +34,7 @@ type c07Case struct {
 	SrvSkipVerify bool `json:"srv_skip_verify,omitempty"`
 }
 
-var c07Behaviours = []string{"no-cert-msg", "empty", "trusted", "untrusted", "expired", "wrong-eku", "enc-untrusted", "enc-expired", "enc-wrong-eku", "sig-wrong-eku", "cv-omitted", "cv-otherkey", "cv-othertranscript", "cv-corrupt", "cv-second-cert-key", "cv-encleaf-second-cert-key", "one-cert"}
+var c07Behaviours = []string{"no-cert-msg", "empty", "trusted", "untrusted", "expired", "wrong-eku", "enc-untrusted", "enc-expired", "enc-wrong-eku", "sig-wrong-eku", "private-eku", "cv-omitted", "cv-otherkey", "cv-othertranscript", "cv-corrupt", "cv-second-cert-key", "cv-encleaf-second-cert-key", "one-cert"}
 
 // c07Allows: the documented meaning of the six ClientAuthType constants, plus the standard's rule
 // that the ECDHE key exchange needs both client certificates.
@@ -70,7 +70,7 @@ func c07Allows(policy ClientAuthType, ecdhe bool, beh string) (complete bool, ve
 		if verifies && ecdhe {
 			return false, false
 		}
-	case "wrong-eku":
+	case "wrong-eku", "private-eku":
 		if verifies && policy != RequireAndVerifyAnyKeyUsageClientCert {
 			return false, false
 		}
@@ -113,6 +113,8 @@ func c07Run(c c07Case) (sig, msg string) {
 		sigC, encC = p.CliSigExpired, p.CliEncExpired
 	case "wrong-eku":
 		sigC, encC = p.CliSigCodeSign, p.CliEncCodeSign
+	case "private-eku":
+		sigC, encC = p.CliSigPrivEKU, p.CliEncPrivEKU
 	case "enc-untrusted":
 		encC = p.CliEncB
 	case "enc-expired":
